@@ -714,6 +714,29 @@ pub fn run(cx: &mut Ctx) {
                 let mut m = bytes.clone();
                 m[pos] = b'a';
                 probe(c, &m, "aset without the AnimClipNameTable label");
+                // near-miss spellings of the table's label (shortened in place, the tail becomes
+                // NULs so the text offsets stay valid) - among them the spelling the library's
+                // own error message uses - each with huge words where a reader might look for a count
+                let alts: &[&[u8]] = if cfg!(miri) { &[b"AnimClipTable"] } else { &[b"AnimClipTable", b"AnimClipName", b"AnimClipNameTabl", b"AnimClip", b"animclipnametable", b"ANIMCLIPNAMETABLE"] };
+                for alt in alts.iter().copied() {
+                    let mut m = bytes.clone();
+                    for i in 0..17 {
+                        m[pos + i] = if i < alt.len() { alt[i] } else { 0 };
+                    }
+                    probe(c, &m, "aset whose table label has a near-miss spelling");
+                    if cfg!(miri) {
+                        continue;
+                    }
+                    for word in [0x7FFF_FFFFu32, 0xFFFF_FFFE, 0xFFFF_FFFF, 0x1000_0000, 0x0100_0000] {
+                        for at in [0usize, 4, 8, 12, 16] {
+                            if m.len() >= 0x20 + at + 4 {
+                                let mut m2 = m.clone();
+                                set32(&mut m2, 0x20 + at, word, false);
+                                probe(c, &m2, "aset whose table label has a near-miss spelling and a huge header word");
+                            }
+                        }
+                    }
+                }
             }
             // data size shortened so the clip table / a set ends mid-way
             let cuts: &[u32] = if cfg!(miri) { &[12, 1044] } else { &[4, 12, 16, 600, 1040, 1044, 1048] };
